@@ -1,8 +1,10 @@
 --------------------------- MODULE MC_Features ---------------------------
 EXTENDS Features, Json
 BrokenEdges == {e \in Edges : ~EdgeOk(e)}
-ASSUME PrintT(<<"CASE", ToJson([broken |-> BrokenEdges, edges |-> Cardinality(Edges), items |-> Cardinality(DOMAIN Guard)])>>)
+ASSUME PrintT(<<"CASE", ToJson([broken |-> BrokenEdges, edges |-> Cardinality(Edges), items |-> Cardinality(DOMAIN Guard),
+                                   helpers |-> {<<fs, DocHelpers(fs)>> : fs \in ProbeSets}])>>)
 P_C20_NoDanglingAll == NoDanglingAll
 P_C20_NoDangling == NoDangling
 P_C20_Exposure == Exposure
+P_C20_HelperExposure == HelperExposure
 =============================================================================
